@@ -552,6 +552,9 @@ func Bound(k string, quick, thorough int) int {
 			return v
 		}
 	}
+	if _, thoroughTier := cur.c.Inputs["bound:__thorough"]; thoroughTier {
+		return thorough
+	}
 	return quick
 }
 
